@@ -755,6 +755,9 @@ pub enum MemberForm {
     /// like `Enum`, but the variant with the fields has the explicit index 7: next to an `Enum` member with the
     /// same fields the two shapes differ in nothing but a variant index
     EnumIdx,
+    /// like `Enum` with a third (unit) variant `C`: next to an `Enum` member with the same fields the variants of
+    /// one are a strict subset (a prefix) of the other's
+    Enum3,
 }
 
 #[derive(Clone, Debug, PartialEq, Eq, Hash, Serialize, Deserialize)]
@@ -790,11 +793,12 @@ pub const ALL_PARAM_FORMS: [ParamForm; 6] = [
     ParamForm::TwoSecondSkipped,
     ParamForm::BitsSO,
 ];
-pub const ALL_MEMBER_FORMS: [MemberForm; 4] = [
+pub const ALL_MEMBER_FORMS: [MemberForm; 5] = [
     MemberForm::NamedStruct,
     MemberForm::TupleStruct,
     MemberForm::Enum,
     MemberForm::EnumIdx,
+    MemberForm::Enum3,
 ];
 
 impl FamState {
@@ -838,6 +842,11 @@ impl FamState {
                         "B",
                         Fields::Unnamed(tys.iter().cloned().map(Field::new).collect()),
                     ),
+                ]),
+                MemberForm::Enum3 => Body::Enum(vec![
+                    variant("A", Fields::Unit),
+                    variant("B", Fields::Unnamed(tys.iter().cloned().map(Field::new).collect())),
+                    variant("C", Fields::Unit),
                 ]),
                 MemberForm::EnumIdx => Body::Enum(vec![
                     variant("A", Fields::Unit),
